@@ -265,7 +265,13 @@ func seqProfile0(prop, tier string) *SeqProfile {
 			Design: []DesignRun{{Module: "KlevConc.tla", Cfg: tierS(tier, "conc_q.cfg", "conc_t.cfg"), Workers: 16, Timeout: 20 * time.Minute,
 				Note: "thorough-only (quick: the schedule generator run checks the same invariants on conc_q's constants). KlevConc.tla: lock-level model with reader object identity; every result checked at its linearization point, full scan = abstract log at quiescence, head flag only on the last reader"},
 				{Module: "KlevConc.tla", Cfg: "conc_f13.cfg", Workers: 4, Timeout: 10 * time.Minute, Expect: "QuiescentOK,HeadFlagOK",
-					Note: "negative control: the model of the code before the repair of F13 (stale head reader) must violate QuiescentOK or HeadFlagOK"}},
+					Note: "negative control: the model of the code before the repair of F13 (stale head reader) must violate QuiescentOK or HeadFlagOK"},
+				{Module: "Reader.tla", Cfg: tierS(tier, "reader_q.cfg", "reader_t.cfg"), Workers: 8, Timeout: 20 * time.Minute,
+					Note: "Reader.tla: lazy load / unload of one closed segment's reader (getIndexMarked, getMessages, GC) under concurrent consumers and GC calls, one action per lock section / pause point: NoUseAfterClose, InuseExact, NoLeak, no deadlock, every call returns (liveness under weak fairness)"},
+				{Module: "Reader.tla", Cfg: "reader_no_inc.cfg", Workers: 4, Timeout: 5 * time.Minute, Expect: "NoUseAfterClose",
+					Note: "negative control: counting the user after releasing the read lock lets GC unmap a handle in use"},
+				{Module: "Reader.tla", Cfg: "reader_no_recheck.cfg", Workers: 4, Timeout: 5 * time.Minute, Expect: "NoLeak",
+					Note: "negative control: without the second look under the write lock two loaders leak a mapping"}},
 			Extra: runC08,
 			Rule: "C08: a case is one concurrent history of the real code, built with the race detector: (i) seeded free-running mixes (2-5 goroutines x 3-8 calls of Publish, Consume, Get, GetByKey, ConsumeByKey, GetByTime, Delete, Sync, NextOffset, Stat, GC on prepared small-rollover logs with holes, warm and cold readers, KeepRewriteVersion on/off), (ii) window placement: a call A (Publish with/without rollover, Delete in head/reader segment, Consume with reader load, GC) is held at one of 19 pause points and two further calls run inside the window (or block on A's locks), then a closing scan. TLC (TraceLin) searches a linearization of every history against KlevAbs; a data race report of the race detector is a violation of its own.",
 			Assume: []string{"the Go race detector decides data-race freedom on the schedules that occur", "a call that does not finish within 25 ms inside a window is classified as blocked and stays pending until the window closes"},
